@@ -145,6 +145,13 @@ type tkOracle struct{ st *tkStore }
 func (o *tkOracle) callMethod(in *interp, fr *frame, name string, args []value) value {
 	switch name {
 	case "GetTimestamp":
+		if in.tkOracleFault > 0 {
+			in.tkOracleFault--
+			if in.tkOracleFault == 0 {
+				// the PD timestamp request fails (zzverif.SetTiKVOracleFault)
+				return tuple{in.ctx.Const(64, 0), in.newErr("pd: timestamp request failed", nil)}
+			}
+		}
 		o.st.ts++
 		return tuple{in.ctx.Const(64, o.st.ts), iface{}}
 	}
